@@ -202,6 +202,38 @@ func (e *Env) resolveType(x ast.Expr) *SType {
 	return nil
 }
 
+// tryType resolves an expression as a type name if it denotes one (never a spec function or variable).
+func (e *Env) tryType(x ast.Expr) (*SType, bool) {
+	switch t := x.(type) {
+	case *ast.Ident:
+		if _, isVar := e.vars[t.Name]; isVar {
+			return nil, false
+		}
+		if _, isSF := e.vc.specs.SpecFuncs[t.Name]; isSF {
+			return nil, false
+		}
+		switch t.Name {
+		case "len", "old", "implies", "iff", "ite", "forall", "exists", "store", "in", "dyn", "tag", "call", "elems", "fresh", "zero", "toany", "backing", "top":
+			return nil, false
+		}
+		if o, ok := e.lookupObj(t.Name).(*types.TypeName); ok {
+			return goSType(o.Type()), true
+		}
+	case *ast.SelectorExpr:
+		if id, ok := t.X.(*ast.Ident); ok {
+			if _, isVar := e.vars[id.Name]; isVar {
+				return nil, false
+			}
+			if p := e.lookupPkgByName(id.Name); p != nil && e.lookupObj(id.Name) == nil {
+				if o, ok := p.Types.Scope().Lookup(t.Sel.Name).(*types.TypeName); ok {
+					return goSType(o.Type()), true
+				}
+			}
+		}
+	}
+	return nil, false
+}
+
 // ---------- expressions ----------
 
 func (e *Env) trBool(x ast.Expr) Term {
@@ -528,6 +560,9 @@ func (e *Env) selectField(base TV, name string, n ast.Node) TV {
 		ck := typeKey(base.S.Go)
 		for _, b := range vc.specs.Bindings {
 			if b.Concrete == ck && b.Field == name {
+				if b.IndexVar != "" {
+					e.fail(n, "model field %s is bound pointwise: use %s[i]", name, name)
+				}
 				be := &Env{vc: vc, pkg: b.Pkg, vars: map[string]TV{b.RecvName: base}, heap: e.heap, old: e.old, tparams: e.typeArgEnv(named), facts: e.facts}
 				be.depth = e.depth
 				return be.tr(b.Expr)
@@ -541,9 +576,9 @@ func (e *Env) selectField(base TV, name string, n ast.Node) TV {
 			if base.S.Sort == "Iface" {
 				// model field of an interface: for objects of a concrete type with a binding, the field IS the bound expression
 				for _, b := range vc.specs.Bindings {
-					if b.Iface == okey && b.Field == name {
+					if b.Iface == okey && b.Field == name && b.IndexVar == "" {
 						ct := e.concreteTypeOf(b)
-						be := &Env{vc: vc, pkg: b.Pkg, vars: map[string]TV{b.RecvName: {T: app("pl", base.T), S: goSType(ct)}}, heap: e.heap, old: e.old}
+						be := &Env{vc: vc, pkg: b.Pkg, vars: map[string]TV{b.RecvName: {T: app("pl", base.T), S: goSType(ct)}}, heap: e.heap, old: e.old, facts: e.facts}
 						be.depth = e.depth
 						bt := be.tr(b.Expr)
 						cond := and(not(eq(base.T, "iface_nil")), eq(app("dyn", base.T), intLit(int64(vc.typeID(ct)))))
@@ -698,8 +733,59 @@ func shortKey(k string) string {
 
 func arrSort(elem Sort) Sort { return fmt.Sprintf("(Array Int %s)", elem) }
 
+// pointwise: x.F[i] where F is a model field bound pointwise for the (concrete or dynamic) type of x.
+func (e *Env) pointwise(x *ast.IndexExpr) (TV, bool) {
+	vc := e.vc
+	sel, ok := x.X.(*ast.SelectorExpr)
+	if !ok {
+		return TV{}, false
+	}
+	has := false
+	for _, b := range vc.specs.Bindings {
+		if b.Field == sel.Sel.Name && b.IndexVar != "" {
+			has = true
+		}
+	}
+	if !has {
+		return TV{}, false
+	}
+	base := e.tr(sel.X)
+	okey, named, _ := ownerKeyOf(base.S.Go)
+	if okey == "" {
+		return TV{}, false
+	}
+	idx := e.tr(x.Index)
+	ck := typeKey(base.S.Go)
+	for _, b := range vc.specs.Bindings {
+		if b.Concrete == ck && b.Field == sel.Sel.Name && b.IndexVar != "" {
+			be := &Env{vc: vc, pkg: b.Pkg, vars: map[string]TV{b.RecvName: base, b.IndexVar: idx}, heap: e.heap, old: e.old, tparams: e.typeArgEnv(named), facts: e.facts, depth: e.depth}
+			return be.tr(b.Expr), true
+		}
+	}
+	if base.S.Sort == "Iface" {
+		if gf, ok := vc.specs.GhostFields[okey+"."+sel.Sel.Name]; ok {
+			g := e.ghostField(gf, base, named)
+			out := TV{T: app("select", g.T, idx.T), S: g.S.Elem}
+			for _, b := range vc.specs.Bindings {
+				if b.Iface == okey && b.Field == sel.Sel.Name && b.IndexVar != "" {
+					ct := e.concreteTypeOf(b)
+					be := &Env{vc: vc, pkg: b.Pkg, vars: map[string]TV{b.RecvName: {T: app("pl", base.T), S: goSType(ct)}, b.IndexVar: idx}, heap: e.heap, old: e.old, depth: e.depth, facts: e.facts}
+					bt := be.tr(b.Expr)
+					cond := and(not(eq(base.T, "iface_nil")), eq(app("dyn", base.T), intLit(int64(vc.typeID(ct)))))
+					out = TV{T: app("ite", cond, bt.T, out.T), S: out.S}
+				}
+			}
+			return out, true
+		}
+	}
+	return TV{}, false
+}
+
 func (e *Env) trIndex(x *ast.IndexExpr) TV {
 	vc := e.vc
+	if tv, ok := e.pointwise(x); ok {
+		return tv
+	}
 	a := e.tr(x.X)
 	i := e.tr(x.Index)
 	if a.S.Key != nil {
@@ -798,6 +884,19 @@ func (e *Env) trCall(x *ast.CallExpr) TV {
 	if sel, ok := x.Fun.(*ast.SelectorExpr); ok {
 		if tv, ok := e.tryPureMethod(sel, x); ok {
 			return tv
+		}
+	}
+	// conversion T(x) / pkg.T(x)
+	if len(x.Args) == 1 {
+		if tt, ok := e.tryType(x.Fun); ok {
+			v := e.tr(x.Args[0])
+			if tt.Sort == "Iface" && v.S.Sort != "Iface" {
+				return TV{T: vc.toAny(v.T, v.S.Go), S: tt}
+			}
+			if tt.Sort == v.S.Sort {
+				return TV{T: v.T, S: tt}
+			}
+			e.fail(x, "unsupported conversion from %s to %s", v.S.Sort, tt.Sort)
 		}
 	}
 	id, ok := x.Fun.(*ast.Ident)
@@ -903,6 +1002,9 @@ func (e *Env) trCall(x *ast.CallExpr) TV {
 		t := v.T
 		if v.S.Sort == "Slice" {
 			t = app("sid", v.T)
+		}
+		if v.S.Sort == "Iface" {
+			t = app("pl", v.T)
 		}
 		return TV{T: app(">", t, vc.hget(e.old, "top", "Int")), S: stBool}
 	case "allocated":
